@@ -91,3 +91,21 @@ Lemma concat_chunksize1_oob_refuted_proof :
   session_concat_v0 (session_fuel [0; 2]) [0; 2] (psums (map (@len Z) [[97]; [98]])) (concat [[97]; [98]]) 1 16 1
   = OOB 6.
 Proof. vm_compute. reflexivity. Qed.
+
+(* ---- stated on the arrays of a stored column (an empty column has an empty index array) -- *)
+Lemma session_concat_field_proof strs spans csz dcs mult fuel :
+  spans_in_range spans (len strs) -> (strs <> [] \/ (length spans <= 1)%nat) ->
+  1 <= csz -> 0 <= dcs * mult ->
+  fits (dcs * mult) (concat_spec spans strs) ->
+  (length spans < fuel)%nat ->
+  session_concat fuel spans (field_index strs) (field_values strs) csz dcs mult
+  = Ok (spec_indices (concat_spec spans strs), spec_values (concat_spec spans strs)).
+Proof.
+  intros Hr Hne Hc HN Hf Hfuel. destruct strs as [|s0 t].
+  - destruct Hne as [Hne|Hne]; [congruence|].
+    unfold session_concat, session_concat_gen, np_zeros.
+    assert ((csz + 1 <? 0) = false) as -> by lia. assert ((dcs * mult <? 0) = false) as -> by lia.
+    cbn [bind]. destruct fuel as [|fuel]; [lia|]. cbn [session_loop].
+    destruct spans as [|x [|y r]]; cbn [length] in Hne; try lia; reflexivity.
+  - apply session_concat_correct_proof; assumption.
+Qed.
